@@ -170,6 +170,10 @@ def run(ctx):
                 continue
             removed = f.origin_call(rem[0][0], rem[0][1])
             some = [a for a in atoms if a[0] == "enum" and strip_site(a[1]) == strip_site(removed)]
+            if not some:
+                if not rel:
+                    bad.append(("the result of the store removal is not examined: a removed entry's weight would stay charged", p))
+                continue
             if some and some[0][2] == ("Some",):
                 if len(rel) != 1:
                     bad.append(("removed an entry but released weight %d times" % len(rel), p))
@@ -191,6 +195,13 @@ def run(ctx):
         ctx.check(bool(ids), "R05.2", "%s|returns-removed-id" % f.name,
                   "the store removal reports the key id of the entry it removed", f.where(bb), fmt(r)[:200])
 
+    # R05.6 release of an id and by-key removal of its entry are atomic w.r.t. admission (shared with C10 R10.5 / C03 R03.4)
+    import c10
+    c10.id_guard(ctx, M, "R05.6")
+
+    for s_ in M.sites + M.helper_sites:
+        ctx.check(s_["kind"] != "unclassified" and s_.get("exact", True), "R05.7", "%s|total-written-exactly" % s_["fn"].name,
+                  "every write of the total weight applies exactly the intended amount (the space the decisions and statistics rely on is the true total)", s_["fn"].where(s_["bb"], s_["idx"]))
     # R05.4 = R01.4
     accounting_flow(ctx, M, "R05.4")
 
